@@ -26,7 +26,8 @@ DISPATCH = {
     "scrypt-big2": B.t_scrypt_big2, "scrypt-refuse2": B.t_scrypt_refuse2,
     "bcrypt-hash": B.t_bcrypt_hash, "bcrypt-refuse": B.t_bcrypt_refuse, "bcrypt-check": B.t_bcrypt_check,
     "bcrypt-mut": B.t_bcrypt_mut, "bcrypt-mut2": B.t_bcrypt_mut2,
-    "s2v": B.t_s2v, "s2v-limit": B.t_s2v_limit, "s2v-hist": B.t_s2v_hist, "s2v-hist2": B.t_s2v_hist2,
+    "s2v": B.t_s2v, "s2v-limit": B.t_s2v_limit, "s2v-hist": B.t_s2v_hist,
+    "scrypt-rsweep": B.t_scrypt_rsweep, "carriers": B.t_carriers, "s2v-hist2": B.t_s2v_hist2,
 }
 
 
@@ -67,6 +68,8 @@ def replay(case, acc):
         B.check_bcrypt_pair(pw, h, exp, acc, "replay")
     elif part == "s2v":
         B.check_s2v(case["key"], case["comps"], acc)
+    elif part == "carriers":
+        B.t_carriers(("carriers",), acc)
     elif part == "s2v-history":
         B.s2v_history(case["key"], tuple(case["hist"]), acc)
     else:
